@@ -146,7 +146,9 @@ func buildPartDisk(c *partioCase, extra uint64) (*memdev.Dev, *disk.Disk, int64,
 		}
 		tbl = t
 	} else {
-		if c.Start+c.Sectors+extra > 1<<32-1 {
+		// start and size are 32-bit fields each: a partition may end on the last addressable sector (start+size = 2^32);
+		// a second partition behind it (copy target, other variants) cannot exist
+		if c.Start+c.Sectors > 1<<32 || (extra > 0 && c.Start+c.Sectors+extra > 1<<32-1) {
 			return nil, nil, 0, errors.New("n/a")
 		}
 		t := &mbr.Table{LogicalSectorSize: c.LSS, PhysicalSectorSize: c.PSS}
@@ -469,7 +471,8 @@ func enumC13(quick bool) []partioCase {
 		for _, ss := range [][2]int{{512, 512}, {512, 4096}, {4096, 4096}} {
 			starts := []uint64{34, 2048, 1<<23 + 1}
 			if tb == "mbr" {
-				starts = []uint64{1, 2048, 1<<23 + 1}
+				// (the last one: start + size reaches 2^32 sectors for the sizes 1, 3 and 8 below - 2^32-8+8 - or ends just below)
+				starts = []uint64{1, 2048, 1<<23 + 1, 1<<32 - 8}
 			}
 			if tb == "gpt" {
 				starts = append(starts, 1<<32-9)
